@@ -319,7 +319,7 @@ class World:
             if self._forced and getattr(self, "_prefer_callers", False):
                 # pre-emption inside a hot region: the interesting successor is an application thread that is
                 # about to enter the code under test, not one more loop iteration or a network delivery
-                callers = [a for a in cands if a.kind == "caller"]
+                callers = [a for a in cands if a.kind in ("caller", "task")]
                 if callers:
                     cands, pseudo, hot_switch = callers, [], True
             self._prefer_callers = False
